@@ -219,7 +219,7 @@ def main(tier, replay=None):
     try:
         os.symlink(os.path.join(tlc.SPEC_DIR, "Config.tla"), os.path.join(work, "Config.tla"))
         iv, mi = ("-1..1", 3) if q else ("-1..2", 4)      # interface k sits at k + 0.5: negative, and values around zero
-        wv = "0..3" if q else "0..4"      # thorough: about 5 million configurations (341 interface lists), an hour on 16 cores
+        wv = "0..3"      # thorough: about 5 million configurations (341 interface lists with up to four interfaces), most of an hour on 16 cores
         ml = "{0, 2, 3, 4}" if q else "{0, 2, 3, 4, 5}"
         capv = "{None, -2, -1, 0, 1, 3, 4}" if q else "{None, -2, -1, 0, 1, 3, 5, 6}"        # half steps: interface k is 2k + 1
         lm = "{None, -3, 0, 1}" if q else "{None, -3, 0, 1, 2}"
